@@ -128,6 +128,25 @@ def build(flavour="O2", quiet=True):
         link2 = [cxx] + oflags + ["-no-pie", "-o", os.path.join(bdir, "wsq_tso"), main_o, tso_o] + objs + ldflags + ["-lrt", "-lpthread", "-ldl", "-lm"]
         if not _run(link2, log):
             raise RuntimeError("wsq_tso link failed:\n" + "\n".join(log)[:20000])
+        # drsim: DAG Recorder sources (with the clock seam) + the serial simulator of a parallel execution
+        pdir = os.path.join(REPO, "src", "profiler")
+        pflags = oflags + ["-DMYTH_VERIF", "-D_GNU_SOURCE", "-w", "-I" + pdir]
+        pjobs, pobjs = [], []
+        for s in ["dag_recorder.c", "chronological.c", "dr_dump.c", "gen_stat.c", "gen_dot.c", "gen_gpl.c", "gen_text.c", "read_dag.c",
+                  "options.c", "interpolate_counters.c", "papi_counters.c"]:
+            o = os.path.join(bdir, "dr_" + s[:-2] + ".o")
+            pobjs.append(o)
+            pjobs.append([cc] + pflags + ["-c", os.path.join(pdir, s), "-o", o])
+        o = os.path.join(bdir, "drsim.o")
+        pobjs.append(o)
+        pjobs.append([cc] + pflags + ["-Wall", "-Wno-unused-function", "-I" + hdir, "-I" + os.path.join(VERIF, "sim"), "-c", os.path.join(hdir, "drsim.c"), "-o", o])
+        with ThreadPoolExecutor(max_workers=16) as ex:
+            oks = list(ex.map(lambda c: _run(c, log), pjobs))
+        if not all(oks):
+            raise RuntimeError("drsim compile failed:\n" + "\n".join(log)[:20000])
+        link3 = [cxx] + oflags + ["-no-pie", "-o", os.path.join(bdir, "drsim"), main_o] + pobjs + objs + ldflags + ["-lrt", "-lpthread", "-ldl", "-lm"]
+        if not _run(link3, log):
+            raise RuntimeError("drsim link failed:\n" + "\n".join(log)[:20000])
         open(os.path.join(bdir, ".ok"), "w").write(time.strftime("%F %T"))
         return bdir
     finally:
